@@ -342,6 +342,16 @@ class ImplEq(ImplRules):
         self.last_pair = (x, y)
         return f"{fmt_bool_(x == y)} {fmt_bool_(x != y)}"
 
+    def cmd_eqshift(self, ts):
+        """a dispatcher-built schedule against a hand-built copy whose start times are all shifted by k"""
+        ia, ha, k = _split(ts)
+        x = _sched_from_hist(parse_instance(ia), [int(t) for t in ha])
+        k = int(k[0])
+        y = jsl.Schedule(x.instance, [[jsl.ScheduledOperation(so.operation, so.start_time + k, so.machine_id)
+                                       for so in ms] for ms in x.schedule])
+        self.last_pair = (x, y)
+        return f"{fmt_bool_(x == y)} {fmt_bool_(x != y)}"
+
     def cmd_eqsched(self, ts):
         ia, ha, ib, hb = _split(ts)
         x = _sched_from_hist(parse_instance(ia), [int(t) for t in ha])
